@@ -651,6 +651,30 @@ def executed_layout(ctx, quick):
     rec = Rec("LyPix", [("a", f32t), ("b", f32t)])
     pkg = Pkg("Layout", [rec, Proto("LyP", [("img", A(f32t, 2)), ("vol", A(f64t, 3)), ("bytes", A(P("uint8"), 2)), ("cplx", A(P("complexfloat32"), 2)), ("fixed", A(P("int8"), ((None, 3), (None, 4)))),
                                            ("dyn", A(f64t, None)), ("pix", A(N("LyPix"), 2)), ("ints", A(P("int32"), 2)), ("frames", S(A(f32t, 2)))])])
+    # one generic record instantiated with an element type that is bulk-copied (float32) and with one that is not (int32: varints), both as array
+    # elements, the bulk-copied one first; and both inside one record that is itself an array element
+    pair = Rec("LyPair", [("first", TP("T")), ("second", TP("T"))], ("T",))
+    both = Rec("LyBoth", [("p", N("LyPair", (f32t,))), ("q", N("LyPair", (P("int32"),)))])
+    gpkg = Pkg("LayoutGen", [pair, both, Proto("LyG", [("gains", A(N("LyPair", (f32t,)), 1)), ("counts", A(N("LyPair", (P("int32"),)), 1)), ("boths", A(N("LyBoth"), 1)),
+                                                      ("gains2", A(N("LyPair", (f64t,)), 2)), ("counts2", A(N("LyPair", (P("int64"),)), 2)), ("frames", S(A(N("LyPair", (P("int16"),)), 1)))])])
+    mg = rt.prepare_model(ctx, "c14x_layoutgen", gpkg, ["plain"])
+    if mg is None:
+        raise Inconclusive("generic layout model did not build")
+    from vlib.refcodec import f32 as _f32, f64 as _f64
+    gproto = gpkg.find("LyG")
+    for k in range(2):
+        gvals = [((3,), [[_f32(1.5 * j + k), _f32(-2.0 * j)] for j in range(3)]), ((3,), [[1 + k, 300 * (k + 1)], [-70000, 5], [2 ** 31 - 1, -(2 ** 31)]]),
+                 ((2,), [[[_f32(0.25), _f32(8.0)], [1000 * (k + 1), -3]], [[_f32(-1.0), _f32(2.5)], [7, 2 ** 20]]]),
+                 ((2, 2), [[_f64(float(j)), _f64(j / 8)] for j in range(4)]), ((2, 2), [[j * 10 ** 12, -j] for j in range(4)]),
+                 [((2,), [[-300 * i, 77], [32767, -32768]]) for i in range(2)]]
+        gdata = mg.codec.encode_stream(gproto, mg.schema("LyG"), gvals)
+        ctx.case(("executed-layout-generic-arrays", k))
+        for ep in (rt.CppEndpoint(mg, "plain"), rt.PyEndpoint(mg), rt.PyEndpoint(mg, mode="list"), rt.PyEndpoint(mg, mode="fortran")):
+            r = ep.copy("LyG", "bin", "bin", gdata)
+            ctx.ev()
+            ctx.count("executed-generic-arrays." + ep.name)
+            rt.judge(ctx, mg, gproto, gvals, gdata, r, ep.name, "bin", "arrays of one generic record with bulk-copied and varint-encoded arguments through %s (set %d)" % (ep.name, k), {"executed": True})
+    mg.close()
     m = rt.prepare_model(ctx, "c14x_layout", pkg, ["plain"])
     if m is None:
         raise Inconclusive("layout model did not build")
